@@ -1,4 +1,6 @@
 import VyxalModel.Model.NumTheory
+import Mathlib.Data.Nat.Choose.Basic
+import Mathlib.Data.Nat.Prime.Basic
 /-!
 # C17 — number-theory builtins agree with their definitions
 
@@ -9,6 +11,8 @@ binomial (`choose_mul_fact`: C(n,k)·k!·(n−k)! = n!), totient (a count, by de
 (`nextPrime_spec`), the ranges (`range_specs`) and the binary round trip (`bin_roundtrip`).
 That the *real elements* (which delegate to sympy / math) agree with the references is established by
 the correspondence on the ranges run — partial, T5.
+`fact_eq_factorial`, `choose_eq_choose`, `isPrimeB_iff_prime` identify the references with Mathlib's `Nat.factorial`, `Nat.choose`
+and `Nat.Prime`; `isSquareB_iff` and `prevPrime_spec` (greatest prime below n) complete the list.
 -/
 namespace C17
 open NT
@@ -197,5 +201,73 @@ theorem bin_roundtrip (n : Nat) : fromBinDigits (binDigits n) = n := by
 
 example : isPrimeB 97 = true ∧ divisorsL 12 = [1, 2, 3, 4, 6, 12] ∧ primeFactors 360 = [2, 2, 2, 3, 3, 5]
     ∧ totient 36 = 12 ∧ nextPrime 97 = some 101 ∧ choose 10 3 = 120 := by decide
+
+/-! ## the references are the library's definitions (`Nat.factorial`, `Nat.choose`, `Nat.Prime`); squares; previous prime -/
+
+/-- the references *are* the library's textbook definitions -/
+theorem fact_eq_factorial (n : Nat) : fact n = n.factorial := by
+  induction n with
+  | zero => rfl
+  | succ n ih => simp [fact, Nat.factorial, ih]
+
+theorem choose_eq_choose : ∀ (n k : Nat), choose n k = Nat.choose n k
+  | _, 0 => by simp [choose]
+  | 0, k + 1 => by simp [choose]
+  | n + 1, k + 1 => by
+    rw [choose, Nat.choose_succ_succ, choose_eq_choose n k, choose_eq_choose n (k + 1)]
+
+theorem isPrimeB_iff_prime (n : Nat) : isPrimeB n = true ↔ Nat.Prime n := by
+  rw [isPrimeB_iff, Nat.prime_def_lt]
+  constructor
+  · rintro ⟨h2, h⟩
+    refine ⟨h2, fun m hm hd => ?_⟩
+    by_cases h1 : m = 1
+    · exact h1
+    · have hm0 : m ≠ 0 := by
+        intro h0; subst h0; simp at hd; omega
+      exact absurd hd (h m (by omega) hm)
+  · rintro ⟨h2, h⟩
+    refine ⟨h2, fun d hd hlt hdvd => ?_⟩
+    have := h d hlt hdvd
+    omega
+
+theorem isSquareB_iff (n : Nat) : isSquareB n = true ↔ ∃ k, k * k = n := by
+  simp only [isSquareB, List.any_eq_true, List.mem_range, beq_iff_eq]
+  constructor
+  · rintro ⟨k, _, h⟩; exact ⟨k, h⟩
+  · rintro ⟨k, h⟩
+    refine ⟨k, ?_, h⟩
+    have : k ≤ k * k := Nat.le_mul_self k
+    omega
+
+theorem prevPrimeF_spec : ∀ (f m p : Nat), prevPrimeF f m = some p →
+    isPrimeB p = true ∧ p ≤ m ∧ ∀ q, p < q → q ≤ m → isPrimeB q = false
+  | 0, _, _, h => by simp [prevPrimeF] at h
+  | f + 1, m, p, h => by
+    simp only [prevPrimeF] at h
+    split at h
+    · rename_i hp
+      simp at h; subst h
+      exact ⟨hp, Nat.le_refl _, fun q h1 h2 => by omega⟩
+    · rename_i hp
+      split at h
+      · simp at h
+      · rename_i hm
+        obtain ⟨h1, h2, h3⟩ := prevPrimeF_spec f (m - 1) p h
+        refine ⟨h1, by omega, fun q hq hqm => ?_⟩
+        by_cases hqm' : q = m
+        · subst hqm'; simpa using hp
+        · exact h3 q hq (by omega)
+
+/-- when the downward search answers, it answers the greatest prime below `n` -/
+theorem prevPrime_spec (n p : Nat) (h : prevPrime n = some p) :
+    isPrimeB p = true ∧ p < n ∧ ∀ q, p < q → q < n → isPrimeB q = false := by
+  unfold prevPrime at h
+  split at h
+  · simp at h
+  · obtain ⟨h1, h2, h3⟩ := prevPrimeF_spec _ _ _ h
+    exact ⟨h1, by omega, fun q hq hqn => h3 q hq (by omega)⟩
+
+example : prevPrime 10 = some 7 ∧ isSquareB 49 = true ∧ isSquareB 50 = false ∧ choose 6 2 = 15 := by decide
 
 end C17
